@@ -894,7 +894,12 @@ def _inline_unknown_helpers(tree: ast.Module, modname: str, known: set[str], log
                     subst: dict[str, ast.AST] = {}
                     for pn in params:
                         arg = bound[pn]
+                        uses = sum(1 for b in body for n in ast.walk(b) if isinstance(n, ast.Name) and n.id == pn and isinstance(n.ctx, ast.Load))
                         if isinstance(arg, (ast.Name, ast.Constant)) and pn not in stored:
+                            subst[pn] = arg
+                        elif pn not in stored and uses == 1 and _call_free(arg):
+                            # a call-free argument read exactly once (e.g. the iterable of the helper's loop): same value at
+                            # the point of use as at the call
                             subst[pn] = arg
                         else:
                             pre.append(ast.copy_location(ast.Assign(targets=[ast.Name(id=pn + suffix, ctx=ast.Store())], value=arg), st))
